@@ -54,7 +54,12 @@ func VerifC09_Edit() {
 	verifAssume(max <= types.MaximumMaxSupply && max >= 1)
 	cap := verifMul(new(big.Int).SetUint64(max), prec)
 	supply := verifIntIn("supply", big.NewInt(0), cap)
-	tok := e.seedToken("kitty", "kit", scale, 0, max, true, e.owner, supply, e.other)
+	// the token may have been made non-mintable after it grew beyond its initial supply (or shrunk below it
+	// by burning): the recorded initial supply says nothing about what circulates
+	initial := verifUint64("initial")
+	verifAssume(initial <= max)
+	wasMintable := verifBool("wasMintable")
+	tok := e.seedToken("kitty", "kit", scale, initial, max, wasMintable, e.owner, supply, e.other)
 	actor, isOwner := e.actor("actor")
 	newMax := verifUint64("newMax")
 	verifAssume(newMax <= types.MaximumMaxSupply)
@@ -66,7 +71,7 @@ func VerifC09_Edit() {
 	verifAssert(gerr == nil, "token still exists")
 	if err != nil {
 		verifCover("refused")
-		verifAssert(after.MaxSupply == max && after.Mintable == true && after.Owner == tok.Owner, "refused edit changes nothing")
+		verifAssert(after.MaxSupply == max && after.Mintable == wasMintable && after.Owner == tok.Owner, "refused edit changes nothing")
 		return
 	}
 	verifCover("edited")
